@@ -25,6 +25,12 @@ Model/NameWire.vos Model/NameWire.vok Model/NameWire.required_vos: Model/NameWir
 Model/Snapshot.vo Model/Snapshot.glob Model/Snapshot.v.beautified Model/Snapshot.required_vo: Model/Snapshot.v 
 Model/Snapshot.vio: Model/Snapshot.v 
 Model/Snapshot.vos Model/Snapshot.vok Model/Snapshot.required_vos: Model/Snapshot.v 
+Model/ZfFs.vo Model/ZfFs.glob Model/ZfFs.v.beautified Model/ZfFs.required_vo: Model/ZfFs.v Base/Res.vo Base/Octets.vo
+Model/ZfFs.vio: Model/ZfFs.v Base/Res.vio Base/Octets.vio
+Model/ZfFs.vos Model/ZfFs.vok Model/ZfFs.required_vos: Model/ZfFs.v Base/Res.vos Base/Octets.vos
+Model/ZfMini.vo Model/ZfMini.glob Model/ZfMini.v.beautified Model/ZfMini.required_vo: Model/ZfMini.v Base/Res.vo Base/Octets.vo Model/ZfFs.vo
+Model/ZfMini.vio: Model/ZfMini.v Base/Res.vio Base/Octets.vio Model/ZfFs.vio
+Model/ZfMini.vos Model/ZfMini.vok Model/ZfMini.required_vos: Model/ZfMini.v Base/Res.vos Base/Octets.vos Model/ZfFs.vos
 Proofs/FramingP.vo Proofs/FramingP.glob Proofs/FramingP.v.beautified Proofs/FramingP.required_vo: Proofs/FramingP.v Base/Res.vo Base/Octets.vo Base/ListX.vo Model/Framing.vo Spec/FramingS.vo Proofs/FramingSP.vo
 Proofs/FramingP.vio: Proofs/FramingP.v Base/Res.vio Base/Octets.vio Base/ListX.vio Model/Framing.vio Spec/FramingS.vio Proofs/FramingSP.vio
 Proofs/FramingP.vos Proofs/FramingP.vok Proofs/FramingP.required_vos: Proofs/FramingP.v Base/Res.vos Base/Octets.vos Base/ListX.vos Model/Framing.vos Spec/FramingS.vos Proofs/FramingSP.vos
@@ -40,9 +46,15 @@ Proofs/NameWireSP.vos Proofs/NameWireSP.vok Proofs/NameWireSP.required_vos: Proo
 Proofs/SnapshotP.vo Proofs/SnapshotP.glob Proofs/SnapshotP.v.beautified Proofs/SnapshotP.required_vo: Proofs/SnapshotP.v Model/Snapshot.vo Spec/SnapshotS.vo
 Proofs/SnapshotP.vio: Proofs/SnapshotP.v Model/Snapshot.vio Spec/SnapshotS.vio
 Proofs/SnapshotP.vos Proofs/SnapshotP.vok Proofs/SnapshotP.required_vos: Proofs/SnapshotP.v Model/Snapshot.vos Spec/SnapshotS.vos
+Proofs/ZfFsP.vo Proofs/ZfFsP.glob Proofs/ZfFsP.v.beautified Proofs/ZfFsP.required_vo: Proofs/ZfFsP.v Base/Res.vo Base/Octets.vo Model/ZfFs.vo Spec/ZfFsS.vo
+Proofs/ZfFsP.vio: Proofs/ZfFsP.v Base/Res.vio Base/Octets.vio Model/ZfFs.vio Spec/ZfFsS.vio
+Proofs/ZfFsP.vos Proofs/ZfFsP.vok Proofs/ZfFsP.required_vos: Proofs/ZfFsP.v Base/Res.vos Base/Octets.vos Model/ZfFs.vos Spec/ZfFsS.vos
 Props/C14.vo Props/C14.glob Props/C14.v.beautified Props/C14.required_vo: Props/C14.v Base/ListX.vo Model/NameWire.vo Spec/NameWireS.vo Spec/NameRepr.vo Proofs/NameWireP.vo Proofs/NameWireSP.vo
 Props/C14.vio: Props/C14.v Base/ListX.vio Model/NameWire.vio Spec/NameWireS.vio Spec/NameRepr.vio Proofs/NameWireP.vio Proofs/NameWireSP.vio
 Props/C14.vos Props/C14.vok Props/C14.required_vos: Props/C14.v Base/ListX.vos Model/NameWire.vos Spec/NameWireS.vos Spec/NameRepr.vos Proofs/NameWireP.vos Proofs/NameWireSP.vos
+Props/C25.vo Props/C25.glob Props/C25.v.beautified Props/C25.required_vo: Props/C25.v Base/Res.vo Base/Octets.vo Model/ZfFs.vo Model/ZfMini.vo Spec/ZfFsS.vo Proofs/ZfFsP.vo
+Props/C25.vio: Props/C25.v Base/Res.vio Base/Octets.vio Model/ZfFs.vio Model/ZfMini.vio Spec/ZfFsS.vio Proofs/ZfFsP.vio
+Props/C25.vos Props/C25.vok Props/C25.required_vos: Props/C25.v Base/Res.vos Base/Octets.vos Model/ZfFs.vos Model/ZfMini.vos Spec/ZfFsS.vos Proofs/ZfFsP.vos
 Props/C30.vo Props/C30.glob Props/C30.v.beautified Props/C30.required_vo: Props/C30.v Base/Res.vo Base/Octets.vo Base/ListX.vo Gen/IoConsts.vo Model/Framing.vo Spec/FramingS.vo Proofs/FramingSP.vo Proofs/FramingP.vo
 Props/C30.vio: Props/C30.v Base/Res.vio Base/Octets.vio Base/ListX.vio Gen/IoConsts.vio Model/Framing.vio Spec/FramingS.vio Proofs/FramingSP.vio Proofs/FramingP.vio
 Props/C30.vos Props/C30.vok Props/C30.required_vos: Props/C30.v Base/Res.vos Base/Octets.vos Base/ListX.vos Gen/IoConsts.vos Model/Framing.vos Spec/FramingS.vos Proofs/FramingSP.vos Proofs/FramingP.vos
@@ -61,3 +73,6 @@ Spec/NameWireS.vos Spec/NameWireS.vok Spec/NameWireS.required_vos: Spec/NameWire
 Spec/SnapshotS.vo Spec/SnapshotS.glob Spec/SnapshotS.v.beautified Spec/SnapshotS.required_vo: Spec/SnapshotS.v Model/Snapshot.vo
 Spec/SnapshotS.vio: Spec/SnapshotS.v Model/Snapshot.vio
 Spec/SnapshotS.vos Spec/SnapshotS.vok Spec/SnapshotS.required_vos: Spec/SnapshotS.v Model/Snapshot.vos
+Spec/ZfFsS.vo Spec/ZfFsS.glob Spec/ZfFsS.v.beautified Spec/ZfFsS.required_vo: Spec/ZfFsS.v Base/Res.vo Base/Octets.vo Model/ZfFs.vo
+Spec/ZfFsS.vio: Spec/ZfFsS.v Base/Res.vio Base/Octets.vio Model/ZfFs.vio
+Spec/ZfFsS.vos Spec/ZfFsS.vok Spec/ZfFsS.required_vos: Spec/ZfFsS.v Base/Res.vos Base/Octets.vos Model/ZfFs.vos
